@@ -267,3 +267,34 @@ pub fn on_big_stack<T: Send>(f: impl FnOnce() -> T + Send) -> T {
             .expect("driver thread died (machinery error)")
     })
 }
+
+
+// ------------------------------------------------------------------ crash isolation
+// An allocation failure or a stack overflow inside the implementation aborts the process: no
+// panic to catch. A check that feeds extreme operands runs as a child of a supervisor (see
+// main.rs); every worker thread notes the case it is about to run in a file of its own, and
+// when the child is killed the supervisor re-runs the noted cases one by one in fresh children
+// to find the one that kills its process.
+thread_local! {
+    static JOURNAL: std::cell::RefCell<Option<std::fs::File>> = const { std::cell::RefCell::new(None) };
+}
+static JOURNAL_SEQ: std::sync::atomic::AtomicUsize = std::sync::atomic::AtomicUsize::new(0);
+
+/// notes `case` (a replayable case as JSON text) as the one this thread is about to run
+pub fn journal(case: impl FnOnce() -> String) {
+    use std::io::{Seek, SeekFrom, Write};
+    let Ok(dir) = std::env::var("SSLVERIF_JOURNAL") else { return };
+    JOURNAL.with(|j| {
+        let mut j = j.borrow_mut();
+        if j.is_none() {
+            let k = JOURNAL_SEQ.fetch_add(1, std::sync::atomic::Ordering::Relaxed);
+            *j = std::fs::File::create(std::path::Path::new(&dir).join(format!("{k}.json"))).ok();
+        }
+        if let Some(f) = j.as_mut() {
+            let text = case();
+            let _ = f.seek(SeekFrom::Start(0));
+            let _ = f.write_all(text.as_bytes());
+            let _ = f.set_len(text.len() as u64);
+        }
+    });
+}
